@@ -49,5 +49,20 @@ def run_engines(tier, seed):
     return eng_synthetic.run_engine(tier, seed)
 
 def replay(path):
-    print(open(path).read())
-    return 0
+    """./check C07 --replay FILE : run the op lines of FILE through hwloc and the model, print both, exit 1 on a difference
+    or a failed round-trip oracle.  Lines starting with '#' are ignored; annotated replay files ("op | C | model") are accepted."""
+    import os, shutil
+    from common import build_harness, lake_build, BUILD
+    from diffrun import read_lines
+    lake_build(["hwmodel"])
+    eng = eng_synthetic.ENGINE
+    binp = build_harness(eng.harness, include_c=eng.include_c)
+    ops = [l.split(" | ")[0] for l in read_lines(path) if l.strip() and not l.startswith("#")]
+    wd = os.path.join(BUILD, "run", "synthetic-replay-%d" % os.getpid())
+    try:
+        print(eng.replay_text(binp, wd, ops))
+        bad = eng.fails(binp, os.path.join(wd, "shrink"), ops)
+        print("REPLAY: DIFFERS" if bad else "REPLAY: agree on %d lines" % len(ops))
+        return 1 if bad else 0
+    finally:
+        shutil.rmtree(wd, ignore_errors=True)
